@@ -166,7 +166,8 @@ fn main_rs(prop: &str, corp: &Corpus, libs: &[LibCrate], skipped_rustc: &[String
     s
 }
 
-const PROFILE: &str = "[profile.release]\nopt-level = 2\ndebug = false\ncodegen-units = 16\nlto = \"off\"\npanic = \"unwind\"\nincremental = false\n";
+// must equal the profile of /verif/e3_ticksim/Cargo.toml, so that the dependency artefacts are shared
+const PROFILE: &str = "[profile.release]\nopt-level = 2\ndebug = false\ncodegen-units = 16\nlto = \"off\"\npanic = \"unwind\"\nincremental = false\n\n[profile.release.build-override]\nopt-level = 2\ncodegen-units = 16\n";
 
 /// Write the workspace, build it, return the path of the engine binary.
 pub fn build(prop: &str, seed: u64, tier: &str, corp: &Corpus) -> Result<PathBuf, String> {
